@@ -85,28 +85,47 @@ theorem C15_strict_plumbing (s : Bool) :
 
 /-! ### attribute level: the decision table (`d = true`: the value is `$`; `d = false`: no value before the delimiter) -/
 
-theorem C15_attr_optional (strict d r : Bool) (k : Kind) :
-    attrRead strict ⟨k, true, false, r⟩ (.missing d) = (.null, .null) := by
-  cases strict <;> rfl
+theorem C15_attr_optional (strict d r f : Bool) (k : Kind) :
+    attrRead strict ⟨k, true, false, r, f⟩ (.missing d) = (.null, .null) := by
+  cases strict <;> cases f <;> rfl
 
 theorem C15_attr_strict_required (d r : Bool) (k : Kind) :
-    attrRead true ⟨k, false, false, r⟩ (.missing d) = (.incomplete, .null) := by
+    attrRead true ⟨k, false, false, r, false⟩ (.missing d) = (.incomplete, .null) := by
   rfl
 
 /-- `k` is the UNDERLYING kind: the substitution reaches an INTEGER/REAL/NUMBER/STRING behind any chain of defined types
     (`r`: the attribute's own type is a defined type on a defined type) -/
 theorem C15_attr_lenient_substitutes (k : Kind) (r : Bool) (h : substitutable k = true) :
-    attrRead false ⟨k, false, false, r⟩ (.missing true) = (.usermsg, .tok (substValue k)) := by
+    attrRead false ⟨k, false, false, r, false⟩ (.missing true) = (.usermsg, .tok (substValue k)) := by
   cases r <;> cases k <;> first | rfl | (simp [substitutable] at h)
 
 theorem C15_attr_lenient_other (k : Kind) (r : Bool) (h : substitutable k = false) :
-    attrRead false ⟨k, false, false, r⟩ (.missing true) = (.incomplete, .null) := by
+    attrRead false ⟨k, false, false, r, false⟩ (.missing true) = (.incomplete, .null) := by
   cases r <;> cases k <;> first | rfl | (simp [substitutable] at h)
 
 /-- a required value that is not there at all is a malformed parameter list: incomplete in BOTH modes, every kind -/
 theorem C15_attr_absent_required (strict r : Bool) (k : Kind) :
-    attrRead strict ⟨k, false, false, r⟩ (.missing false) = (.incomplete, .null) := by
+    attrRead strict ⟨k, false, false, r, false⟩ (.missing false) = (.incomplete, .null) := by
   cases strict <;> cases r <;> cases k <;> rfl
+
+/-- a DERIVEd position (an attribute the entity at hand redeclares as derived) accepts `*` and nothing else, in both modes -/
+theorem C15_attr_derived_star (strict o r : Bool) (k : Kind) :
+    attrRead strict ⟨k, o, true, r, false⟩ .star = (.null, .derived) := by
+  cases strict <;> rfl
+
+theorem C15_attr_derived_other (strict o r : Bool) (k : Kind) (t : Tok) (h : t ≠ .star) :
+    (attrRead strict ⟨k, o, true, r, false⟩ t).1 = .warning := by
+  cases t with
+  | star => exact absurd rfl h
+  | missing d => cases strict <;> rfl
+  | lit v sv => cases strict <;> rfl
+
+/-- a REDECLARED position (narrower type, `_redefAttr` set): the read is forwarded and, on this tree, whatever the redefining
+    attribute reports is dropped — any token reads with severity NULL, in both modes (KNOWN_FINDINGS `redeclared:error-dropped`) -/
+theorem C15_attr_redeclared_dropped (strict : Bool) (k : Kind) (o d r : Bool) (t : Tok) :
+    (attrRead strict ⟨k, o, d, r, true⟩ t).1 = .null := by
+  have h : redefReportsError = false := rfl
+  simp [attrRead, h]
 
 /-! ### instance level -/
 
@@ -268,22 +287,22 @@ theorem C15_conforming_clean (s : Bool) (is : List InstIn) (h : ∀ x ∈ is, Cl
 
 /-- OPTIONAL attribute unset — `$` or no value at all —, ANY position of ANY instance shape (any part of a complex
     instance included), either mode: the file reads with severity NULL, p21read exits 0, the instance is complete. -/
-theorem C15_optional_ok (s d r : Bool) (k : Kind) (i : InstIn) (pre post : List InstIn)
+theorem C15_optional_ok (s d r f : Bool) (k : Kind) (i : InstIn) (pre post : List InstIn)
     (hpre : ∀ x ∈ pre, CleanInst s x) (hpost : ∀ x ∈ post, CleanInst s x)
-    (h : OneMissing s ⟨k, true, false, r⟩ d i) :
+    (h : OneMissing s ⟨k, true, false, r, f⟩ d i) :
     readFile s (pre ++ i :: post) = .null ∧ accepted (readFile s (pre ++ i :: post)) = true ∧
     nodeState (readInst s i) = .complete := by
   have hs : (readInst s i).sev = .null := by
     cases h with
     | simple h₁ h₂ =>
-      have := instRead_sev_at (C15_strict_plumbing s).1 ⟨k, true, false, r⟩ (Tok.missing d) h₁ h₂
+      have := instRead_sev_at (C15_strict_plumbing s).1 ⟨k, true, false, r, f⟩ (Tok.missing d) h₁ h₂
       rw [C15_attr_optional] at this; exact this
     | @complex ps₁ ps₂ as₁ ts₁ as₂ ts₂ hp₁ _ h₁ h₂ =>
       simp only [readInst]
       cases ps₁ with
       | nil =>
         rw [List.nil_append, complexRead_sev_head]
-        have := instRead_sev_at (C15_strict_plumbing s).2.1 ⟨k, true, false, r⟩ (Tok.missing d) h₁ h₂
+        have := instRead_sev_at (C15_strict_plumbing s).2.1 ⟨k, true, false, r, f⟩ (Tok.missing d) h₁ h₂
         rw [C15_attr_optional] at this; exact this
       | cons p ps =>
         rw [List.cons_append, complexRead_sev_head]
@@ -299,10 +318,11 @@ theorem C15_optional_ok (s d r : Bool) (k : Kind) (i : InstIn) (pre post : List 
 
 /-- required attribute unset (`$` or absent), STRICT mode, any kind: the instance is incomplete and the read fails.
     `_partial`: internally mapped instances (every own/inherited position) and the first part of a complex instance;
-    excluded: the other parts of a complex instance (see `C15_strict_required_complex_nonhead_witness`). -/
+    excluded: the other parts of a complex instance (see `C15_strict_required_complex_nonhead_witness`) and positions the
+    entity redeclares with a narrower type (`C15_strict_required_redeclared_witness`). -/
 theorem C15_strict_required_incomplete_partial (d r : Bool) (k : Kind) (i : InstIn) (pre post : List InstIn)
     (hpre : ∀ x ∈ pre, CleanInst true x) (hpost : ∀ x ∈ post, CleanInst true x)
-    (h : OneMissingSH true ⟨k, false, false, r⟩ d i) :
+    (h : OneMissingSH true ⟨k, false, false, r, false⟩ d i) :
     p21readExit (readFile true (pre ++ i :: post)) = 1 ∧ accepted (readFile true (pre ++ i :: post)) = false ∧
     nodeState (readInst true i) = .incomplete := by
   rw [readFile_one i pre post hpre hpost, complex_of_SH_cases h, C15_attr_strict_required]
@@ -311,7 +331,7 @@ theorem C15_strict_required_incomplete_partial (d r : Bool) (k : Kind) (i : Inst
 /-- … for internally mapped instances the file severity is exactly SEVERITY_INCOMPLETE -/
 theorem C15_strict_required_severity_simple (d r : Bool) (k : Kind) (i : InstIn) (pre post : List InstIn)
     (hpre : ∀ x ∈ pre, CleanInst true x) (hpost : ∀ x ∈ post, CleanInst true x)
-    (h : OneMissingSimple true ⟨k, false, false, r⟩ d i) : readFile true (pre ++ i :: post) = .incomplete := by
+    (h : OneMissingSimple true ⟨k, false, false, r, false⟩ d i) : readFile true (pre ++ i :: post) = .incomplete := by
   cases h with
   | simple h₁ h₂ =>
     rw [readFile_one _ pre post hpre hpost, complex_of_SH_cases (.simple h₁ h₂), C15_attr_strict_required]; rfl
@@ -322,7 +342,7 @@ theorem C15_strict_required_severity_simple (d r : Bool) (k : Kind) (i : InstIn)
 theorem C15_lenient_substitutes_partial (k : Kind) (r : Bool) (hk : substitutable k = true) (i : InstIn)
     (pre post : List InstIn)
     (hpre : ∀ x ∈ pre, CleanInst false x) (hpost : ∀ x ∈ post, CleanInst false x)
-    (h : OneMissingSimple false ⟨k, false, false, r⟩ true i) :
+    (h : OneMissingSimple false ⟨k, false, false, r, false⟩ true i) :
     readFile false (pre ++ i :: post) = .usermsg ∧ accepted (readFile false (pre ++ i :: post)) = true ∧
     nodeState (readInst false i) = .complete := by
   cases h with
@@ -333,7 +353,7 @@ theorem C15_lenient_substitutes_partial (k : Kind) (r : Bool) (hk : substitutabl
 /-- … and the value stored at that position (the one written back) is 0 / 0.0 / 0 / '' — internally mapped instance -/
 theorem C15_lenient_value_simple (k : Kind) (r : Bool) (hk : substitutable k = true)
     {as₁ ts₁} (as₂ ts₂) (h₁ : CleanL false as₁ ts₁) :
-    ((readVals false (.simple (as₁ ++ ⟨k, false, false, r⟩ :: as₂) (ts₁ ++ Tok.missing true :: ts₂)))[0]?.bind
+    ((readVals false (.simple (as₁ ++ ⟨k, false, false, r, false⟩ :: as₂) (ts₁ ++ Tok.missing true :: ts₂)))[0]?.bind
       (·[as₁.length]?)) = some (.tok (substValue k)) := by
   simp only [readVals, List.getElem?_cons_zero, Option.bind_some]
   rw [instRead_val_at (C15_strict_plumbing false).1 as₂ ts₂ _ _ h₁, C15_attr_lenient_substitutes k r hk]
@@ -341,7 +361,7 @@ theorem C15_lenient_value_simple (k : Kind) (r : Bool) (hk : substitutable k = t
 /-- … the substitution itself also happens inside every part of a complex instance (the flags reach the parts) -/
 theorem C15_lenient_value_complex (k : Kind) (r : Bool) (hk : substitutable k = true)
     (ps₁ ps₂ : List (List AttrD × List Tok)) {as₁ ts₁} (as₂ ts₂) (h₁ : CleanL false as₁ ts₁) :
-    ((readVals false (.complex (ps₁ ++ (as₁ ++ ⟨k, false, false, r⟩ :: as₂, ts₁ ++ Tok.missing true :: ts₂) :: ps₂)))[ps₁.length]?.bind
+    ((readVals false (.complex (ps₁ ++ (as₁ ++ ⟨k, false, false, r, false⟩ :: as₂, ts₁ ++ Tok.missing true :: ts₂) :: ps₂)))[ps₁.length]?.bind
       (·[as₁.length]?)) = some (.tok (substValue k)) := by
   simp only [readVals, complexRead, List.map_append, List.map_cons, List.map_map]
   rw [List.getElem?_append_right (by simp)]
@@ -353,7 +373,7 @@ theorem C15_lenient_value_complex (k : Kind) (r : Bool) (hk : substitutable k = 
 theorem C15_lenient_other_incomplete_partial (k : Kind) (r : Bool) (hk : substitutable k = false) (i : InstIn)
     (pre post : List InstIn)
     (hpre : ∀ x ∈ pre, CleanInst false x) (hpost : ∀ x ∈ post, CleanInst false x)
-    (h : OneMissingSH false ⟨k, false, false, r⟩ true i) :
+    (h : OneMissingSH false ⟨k, false, false, r, false⟩ true i) :
     p21readExit (readFile false (pre ++ i :: post)) = 1 ∧ accepted (readFile false (pre ++ i :: post)) = false ∧
     nodeState (readInst false i) = .incomplete := by
   rw [readFile_one i pre post hpre hpost, complex_of_SH_cases h, C15_attr_lenient_other k r hk]
@@ -363,7 +383,7 @@ theorem C15_lenient_other_incomplete_partial (k : Kind) (r : Bool) (hk : substit
     four that lenient mode would substitute for a `$`: incomplete, read fails.  `_partial`: shapes as above. -/
 theorem C15_absent_required_incomplete_partial (s r : Bool) (k : Kind) (i : InstIn) (pre post : List InstIn)
     (hpre : ∀ x ∈ pre, CleanInst s x) (hpost : ∀ x ∈ post, CleanInst s x)
-    (h : OneMissingSH s ⟨k, false, false, r⟩ false i) :
+    (h : OneMissingSH s ⟨k, false, false, r, false⟩ false i) :
     p21readExit (readFile s (pre ++ i :: post)) = 1 ∧ accepted (readFile s (pre ++ i :: post)) = false ∧
     nodeState (readInst s i) = .incomplete := by
   rw [readFile_one i pre post hpre hpost, complex_of_SH_cases h, C15_attr_absent_required]
@@ -387,38 +407,99 @@ theorem C15_complex_nonhead_ignored (s : Bool) (p : List AttrD × List Tok) (ps 
 /-- `#1=(A(5)B($));` with `B.x : ENUMERATION` required, STRICT mode: severity NULL, accepted, complete — the property
     demands incomplete / exit 1 -/
 theorem C15_strict_required_complex_nonhead_witness :
-    let i := InstIn.complex [([⟨.integer, false, false, false⟩], [Tok.lit (.tok "5") .null]), ([⟨.enum, false, false, false⟩], [Tok.missing true])]
+    let i := InstIn.complex [([⟨.integer, false, false, false, false⟩], [Tok.lit (.tok "5") .null]), ([⟨.enum, false, false, false, false⟩], [Tok.missing true])]
     readFile true [i] = .null ∧ accepted (readFile true [i]) = true ∧ nodeState (readInst true i) = .complete := by
   decide
 
 /-- the same file in lenient mode, and with a substitutable kind: accepted WITHOUT a user message -/
 theorem C15_lenient_complex_nonhead_witness :
-    let i := InstIn.complex [([⟨.integer, false, false, false⟩], [Tok.lit (.tok "5") .null]), ([⟨.string, false, false, false⟩], [Tok.missing true])]
+    let i := InstIn.complex [([⟨.integer, false, false, false, false⟩], [Tok.lit (.tok "5") .null]), ([⟨.string, false, false, false, false⟩], [Tok.missing true])]
     readFile false [i] = .null := by
   decide
 
 /-- `complex:usermsg-escalated`: `#1=(A($)B(.X.));` with `A.n : INTEGER` required, LENIENT mode: the part substitutes 0 with a
     user message, but the file ends with SEVERITY_WARNING and p21read exits 1 — the property demands accepted -/
 theorem C15_lenient_substitutes_complex_head_witness :
-    let i := InstIn.complex [([⟨.integer, false, false, false⟩], [Tok.missing true]), ([⟨.enum, false, false, false⟩], [Tok.lit (.tok ".X.") .null])]
+    let i := InstIn.complex [([⟨.integer, false, false, false, false⟩], [Tok.missing true]), ([⟨.enum, false, false, false, false⟩], [Tok.lit (.tok ".X.") .null])]
     (readInst false i).sev = .usermsg ∧ readFile false [i] = .warning ∧ p21readExit (readFile false [i]) = 1 := by
   decide
 
+/-- `#1=RQS('a',$,6,'s',.T.,$,9);` where `rqs` redeclares `rq_n : NUMBER` as INTEGER (required), STRICT mode: severity NULL, accepted,
+    complete, the value stays unset — the property demands incomplete / exit 1 (`redeclared:error-dropped`) -/
+theorem C15_strict_required_redeclared_witness :
+    let i := InstIn.simple [⟨.string, false, false, false, false⟩, ⟨.integer, false, false, false, true⟩]
+                           [Tok.lit (.tok "'a'") .null, Tok.missing true]
+    readFile true [i] = .null ∧ accepted (readFile true [i]) = true ∧ nodeState (readInst true i) = .complete ∧
+    readVals true i = [[.tok "'a'", .null]] := by
+  decide
+
+/-- general form of `complex:usermsg-escalated`: lenient `$` for a required INTEGER/REAL/NUMBER/STRING at ANY position of the FIRST
+    part of a complex instance, anywhere in an otherwise clean population: the part substitutes with a user message (the instance
+    ends complete), yet the file ends with SEVERITY_WARNING and p21read exits 1 -/
+theorem C15_lenient_substitutes_complex_head_escalated (k : Kind) (r : Bool) (hk : substitutable k = true)
+    {ps₂ as₁ ts₁ as₂ ts₂} (pre post : List InstIn)
+    (hpre : ∀ x ∈ pre, CleanInst false x) (hpost : ∀ x ∈ post, CleanInst false x)
+    (hp : CleanParts false ps₂) (h₁ : CleanL false as₁ ts₁) (h₂ : CleanL false as₂ ts₂) :
+    let i := InstIn.complex ((as₁ ++ ⟨k, false, false, r, false⟩ :: as₂, ts₁ ++ Tok.missing true :: ts₂) :: ps₂)
+    (readInst false i).sev = .usermsg ∧ readFile false (pre ++ i :: post) = .warning ∧
+    p21readExit (readFile false (pre ++ i :: post)) = 1 ∧ nodeState (readInst false i) = .complete := by
+  intro i
+  have hsh : OneMissingSH false ⟨k, false, false, r, false⟩ true i := .head hp h₁ h₂
+  have hr := complex_of_SH_cases hsh
+  rw [C15_attr_lenient_substitutes k r hk] at hr
+  rw [readFile_one i pre post hpre hpost, hr]
+  exact ⟨rfl, rfl, rfl, rfl⟩
+
+/-- general form of `complex:nonhead-part-error-dropped` at file level: whatever the parts after the first contain, a complex
+    instance with a clean first part leaves an otherwise clean file at severity NULL (accepted) and ends complete -/
+theorem C15_complex_nonhead_file (s : Bool) (p : List AttrD × List Tok) (ps : List (List AttrD × List Tok))
+    (hp : CleanL s p.1 p.2) (pre post : List InstIn)
+    (hpre : ∀ x ∈ pre, CleanInst s x) (hpost : ∀ x ∈ post, CleanInst s x) :
+    readFile s (pre ++ InstIn.complex (p :: ps) :: post) = .null ∧
+    nodeState (readInst s (.complex (p :: ps))) = .complete := by
+  have h0 := C15_complex_nonhead_ignored s p ps hp
+  rw [readFile_one _ pre post hpre hpost]
+  cases hr : readInst s (.complex (p :: ps)) with | mk sv c =>
+  rw [hr] at h0; simp only at h0; subst h0
+  have hc : c = true := by simp [readInst] at hr; exact hr.2
+  subst hc
+  exact ⟨rfl, rfl⟩
+
+/-- a DERIVEd position holding anything but `*` (a value, `$`, nothing), internally mapped instance, either mode: rejected -/
+theorem C15_derived_requires_star (s o r : Bool) (k : Kind) (t : Tok) (ht : t ≠ .star)
+    {as₁ ts₁ as₂ ts₂} (pre post : List InstIn)
+    (hpre : ∀ x ∈ pre, CleanInst s x) (hpost : ∀ x ∈ post, CleanInst s x)
+    (h₁ : CleanL s as₁ ts₁) (h₂ : CleanL s as₂ ts₂) :
+    let i := InstIn.simple (as₁ ++ ⟨k, o, true, r, false⟩ :: as₂) (ts₁ ++ t :: ts₂)
+    readFile s (pre ++ i :: post) = .warning ∧ p21readExit (readFile s (pre ++ i :: post)) = 1 ∧
+    nodeState (readInst s i) = .incomplete := by
+  intro i
+  have hs : (readInst s i).sev = .warning := by
+    simp only [i, readInst]
+    rw [instRead_sev_at (C15_strict_plumbing s).1 _ t h₁ h₂]
+    exact C15_attr_derived_other s o r k t ht
+  rw [readFile_one i pre post hpre hpost]
+  cases hr : readInst s i with | mk sv c =>
+  rw [hr] at hs; simp only at hs; subst hs
+  have hc : c = false := by simp [i, readInst] at hr; exact hr.2
+  subst hc
+  exact ⟨rfl, rfl, rfl⟩
+
 /-! ### hypotheses are satisfiable -/
 
-example : OneMissingSimple false ⟨.real, false, false, false⟩ true
-    (.simple ([⟨.integer, false, false, false⟩] ++ ⟨.real, false, false, false⟩ :: [⟨.entity, true, false, false⟩])
+example : OneMissingSimple false ⟨.real, false, false, false, false⟩ true
+    (.simple ([⟨.integer, false, false, false, false⟩] ++ ⟨.real, false, false, false, false⟩ :: [⟨.entity, true, false, false, false⟩])
              ([Tok.lit (.tok "5") .null] ++ Tok.missing true :: [Tok.missing false])) :=
   .simple (.cons rfl .nil) (.cons rfl .nil)
 
-example : OneMissingSH true ⟨.enum, false, false, false⟩ false
-    (.complex (([] ++ ⟨.enum, false, false, false⟩ :: [], [] ++ Tok.missing false :: []) ::
-               [([⟨.integer, false, false, false⟩], [Tok.lit (.tok "5") .null])])) :=
+example : OneMissingSH true ⟨.enum, false, false, false, false⟩ false
+    (.complex (([] ++ ⟨.enum, false, false, false, false⟩ :: [], [] ++ Tok.missing false :: []) ::
+               [([⟨.integer, false, false, false, false⟩], [Tok.lit (.tok "5") .null])])) :=
   .head (by intro p hp; simp at hp; subst hp; exact .cons rfl .nil) .nil .nil
 
-example : OneMissing false ⟨.logical, true, false, false⟩ true
-    (.complex ([([⟨.integer, false, false, false⟩], [Tok.lit (.tok "5") .null])] ++
-               ([] ++ ⟨.logical, true, false, false⟩ :: [], [] ++ Tok.missing true :: []) :: [])) :=
+example : OneMissing false ⟨.logical, true, false, false, false⟩ true
+    (.complex ([([⟨.integer, false, false, false, false⟩], [Tok.lit (.tok "5") .null])] ++
+               ([] ++ ⟨.logical, true, false, false, false⟩ :: [], [] ++ Tok.missing true :: []) :: [])) :=
   .complex (by intro p hp; simp at hp; subst hp; exact .cons rfl .nil) (by intro p hp; simp at hp) .nil .nil
 
 end StepModel.AttrNull
